@@ -1,6 +1,7 @@
 package simharness
 
 import (
+	multierror "github.com/hashicorp/go-multierror"
 	"context"
 	"errors"
 	"fmt"
@@ -165,6 +166,16 @@ func (n *recNode) Process(ctx context.Context, e *el.Event) (*el.Event, error) {
 	case bError, bSinkErr, bErrorWithEvent:
 		h.errSeq++
 		err = fmt.Errorf("injected error #%d at node %s for %s", h.errSeq, n.Label, lin)
+		// the dynamic type of a node's error is the node's business: aggregates,
+		// typed nil pointers and joined errors are errors like any other
+		switch (h.errSeq + len(n.Label)) % 5 {
+		case 1:
+			err = &multierror.Error{Errors: []error{err, fmt.Errorf("injected error #%d (second cause) at node %s for %s", h.errSeq, n.Label, lin)}}
+		case 2:
+			err = (*quietErr)(nil)
+		case 3:
+			err = errors.Join(err, fmt.Errorf("injected error #%d (joined) at node %s for %s", h.errSeq, n.Label, lin))
+		}
 		rec.Err = err
 		if b == bErrorWithEvent {
 			out = e
@@ -173,6 +184,16 @@ func (n *recNode) Process(ctx context.Context, e *el.Event) (*el.Event, error) {
 	h.recs = append(h.recs, rec)
 	simrt.Yield("node:exit")
 	return out, err
+}
+
+// quietErr is an error type whose nil pointer is a usable error value.
+type quietErr struct{ msg string }
+
+func (e *quietErr) Error() string {
+	if e == nil {
+		return "injected error (typed nil pointer)"
+	}
+	return e.msg
 }
 
 // sendTypes maps a Send id to the event type it used (set by the scenario).
